@@ -135,6 +135,7 @@ fn main() {
             let mut pr = rng::Rng::for_case(4242, seed, idx);
             let _ = catch(|| gen::pollute(&mut pr));
         }
+        reprs::set_route_salt(rng::mix(seed ^ idx.rotate_left(23) ^ 0x5a17));
         let r = catch(|| f(idx, seed, &params, &mut o));
         if let Err(p) = &r {
             if p.in_harness() {
